@@ -163,6 +163,18 @@ Fixpoint fams_eqb (a b : list fam) : bool :=
 Definition pl_lookup (d : list (fam * Z)) (k : fam) : option Z :=
   match find (fun e => fam_eqb k (fst e)) d with Some e => Some (snd e) | None => None end.
 
+(* MultiSession.unpack_capability: the session identifiers listed after the flags octet.  T6 probes the tree:
+   MS_VALUE_PARSED = false is the unrepaired decoder, which drops the value *)
+Definition ms_ids (d : list Z) : list Z := if MS_VALUE_PARSED then skipn 1 d else [].
+Definition ms_ids_of_caps (l : list cap) : list Z :=
+  flat_map (fun c => match c with
+                     | CapOther code d => if code =? CAP_MULTISESSION then ms_ids d else []
+                     | _ => [] end) l.
+(* `if ms_capa == set(): ms_capa = set([MULTIPROTOCOL])` and the comparison of the two sets *)
+Definition ids_default (l : list Z) : list Z := match l with [] => [CAP_MULTIPROTOCOL] | x :: t => x :: t end.
+Definition set_eqb (a b : list Z) : bool :=
+  forallb (fun x => existsb (Z.eqb x) b) a && forallb (fun x => existsb (Z.eqb x) a) b.
+
 (* fx = Gen_Registry.LOCAL_AS_FROM_CAP: false is `self.local_as = self.sent_open.asn` alone; true is
    that line followed by "when the field is AS_TRANS and we sent an ASN4 capability, take its value" *)
 Definition negotiate_g (fx : bool) (s r : open) : negotiated :=
@@ -203,10 +215,13 @@ Definition negotiate_g (fx : bool) (s r : open) : negotiated :=
         | Some rap, Some sap, Some spl =>
             filter (fun e => memf (fst e) (map fst sap) && ap_lookup (ap_setup_recv sap rap) (fst e)) spl
         | _, _, _ => [] end);
-     (* we never send the cisco variant, so only the draft code can be common; the received
-        MultiSession value is not parsed (an empty set, read as {MULTIPROTOCOL}), like the one we send *)
+     (* we never send the cisco variant, so only the draft code can be common.  A first (2, 8) for
+        different identifier sets, then the loop over what we sent - always {MULTIPROTOCOL} - which
+        can only produce (2, 8) again *)
      n_ms :=
        (if cs_ms sc && cs_ms rc then
+          if negb (set_eqb (ids_default (ms_ids_of_caps (o_caps s))) (ids_default (ms_ids_of_caps (o_caps r))))
+          then MsRefuse 2 8 else
           match cs_mp rc with
           | Some rl => if fams_eqb (odflt (cs_mp sc)) rl then MsYes else MsRefuse 2 8
           | None => MsRefuse 2 8 end
@@ -241,6 +256,13 @@ Definition our_paths_limit (c : cfg) : list (fam * Z) :=
 
 Definition opt (b : bool) (l : list cap) : list cap := if b then l else [].
 
+(* MultiSession().set([MULTIPROTOCOL]).extract_capability_bytes(): the unrepaired encoder yields two values, hence
+   two TLVs [0] and [MULTIPROTOCOL]; the repaired one a single TLV [flags, MULTIPROTOCOL] *)
+Definition ms_tlvs : list cap :=
+  if MS_VALUE_PARSED then [CapOther CAP_MULTISESSION [0; CAP_MULTIPROTOCOL]]
+  else [CapOther CAP_MULTISESSION [0]; CapOther CAP_MULTISESSION [CAP_MULTIPROTOCOL]].
+Definition our_ms_ids : list Z := if MS_VALUE_PARSED then [CAP_MULTIPROTOCOL] else [].
+
 (* Capabilities.new, in its insertion order; what reaches the wire (a capability whose
    extract_capability_bytes is the empty list, i.e. a host name capability without host name, sends nothing) *)
 Definition caps_of_config (c : cfg) : list cap :=
@@ -258,22 +280,45 @@ Definition caps_of_config (c : cfg) : list cap :=
   ++ opt (negb (Nat.eqb (length (c_host c)) 0)) [CapHostName (trunc_name (c_host c)) (trunc_name (c_domain c))]
   ++ opt (negb (Nat.eqb (length (c_software c)) 0)) [CapSoftware (c_software c)]
   ++ opt (c_linklocal c) [CapOther CAP_LINK_LOCAL_NEXTHOP []]
-  (* MultiSession.extract_capability_bytes yields two values, hence two TLVs: [0] and [MULTIPROTOCOL] *)
-  ++ opt (c_multisession c) [CapOther CAP_MULTISESSION [0]; CapOther CAP_MULTISESSION [CAP_MULTIPROTOCOL]].
+  ++ opt (c_multisession c) ms_tlvs.
 
 (* Protocol.new_open + Open.make_open *)
 Definition open_of (c : cfg) : open :=
   {| o_version := BGP_VERSION; o_asn := trans (c_local_as c); o_hold := c_hold c; o_rid := c_rid c;
      o_caps := caps_of_config c |}.
 
-Definition negotiate (c : cfg) (r : open) : negotiated := negotiate_g LOCAL_AS_FROM_CAP (open_of c) r.
+(* local-as auto (session.local_as = 0): Peer._establish reads the peer's OPEN first and Protocol.new_open takes
+   the AS from it.  T6 probes the tree: AUTO_AS_FROM_PEER_CAP = false is the unrepaired behaviour (the peer's
+   2-octet field as My AS, and the ASN4 capability still built from the unset local AS, hence 0); true takes the
+   peer's AS from its ASN4 capability when it has one and puts that AS in our capability too. *)
+Definition peer_true_as (r : open) : Z :=
+  match cs_asn4 (fold_caps (o_caps r)) with Some a => a | None => o_asn r end.
+Definition with_local_as (c : cfg) (a : Z) : cfg :=
+  {| c_local_as := a; c_peer_as := c_peer_as c; c_rid := c_rid c; c_hold := c_hold c; c_families := c_families c;
+     c_asn4 := c_asn4 c; c_nexthop := c_nexthop c; c_nexthops := c_nexthops c; c_addpath := c_addpath c;
+     c_addpaths := c_addpaths c; c_gr := c_gr c; c_gr_time := c_gr_time c; c_restarted := c_restarted c;
+     c_refresh := c_refresh c; c_operational := c_operational c; c_extmsg := c_extmsg c; c_host := c_host c;
+     c_domain := c_domain c; c_software := c_software c; c_linklocal := c_linklocal c;
+     c_paths_limit := c_paths_limit c; c_multisession := c_multisession c |}.
+Definition zero_asn4 (c : cap) : cap := match c with CapASN4 _ => CapASN4 0 | x => x end.
+Definition our_open (c : cfg) (r : open) : open :=
+  if c_local_as c =? 0 then
+    if AUTO_AS_FROM_PEER_CAP then open_of (with_local_as c (peer_true_as r))
+    else let o := open_of (with_local_as c (o_asn r)) in
+         {| o_version := o_version o; o_asn := o_asn o; o_hold := o_hold o; o_rid := o_rid o;
+            o_caps := map zero_asn4 (o_caps o) |}
+  else open_of c.
+
+Definition negotiate (c : cfg) (r : open) : negotiated := negotiate_g LOCAL_AS_FROM_CAP (our_open c r) r.
 
 (* Negotiated.validate.  fy = Gen_Registry.COLLISION_ON_TRUE_AS: false is
    `self.received_open.asn == neighbor.session.local_as`, true is `self.peer_as == ...` *)
 Definition validate_g (fy : bool) (c : cfg) (r : open) (n : negotiated) : option (Z * Z) :=
   if negb (c_peer_as c =? 0) && negb (n_peer_as n =? c_peer_as c) then Some (2, 2)
   else if o_rid r =? 0 then Some (2, 3)
-  else if ((if fy then n_peer_as n else o_asn r) =? c_local_as c) && (o_rid r =? c_rid c) then Some (2, 3)
+  else if ((if fy then n_peer_as n else o_asn r)
+           =? (if c_local_as c =? 0 then (if AUTO_COLLISION_CHECK then n_local_as n else 0) else c_local_as c))
+          && (o_rid r =? c_rid c) then Some (2, 3)
   else if negb (o_hold r =? 0) && (o_hold r <? HOLD_MIN) then Some (2, 6)
   else match n_ms n with MsRefuse a b => Some (a, b) | _ => None end.
 
